@@ -244,3 +244,27 @@ Section Fixed1.
     rewrite El0, En. reflexivity.
   Qed.
 End Fixed1.
+
+(* ---- first matching line wins ------------------------------------------------------------------------- *)
+Section FirstWins.
+  Variable re_match : pat -> bytes -> bool.
+
+  Lemma kids_run_done c : forall ls, kids_run re_match [(c, true)] ls = [].
+  Proof. induction ls as [|l ls IH]; [reflexivity|]. cbn [kids_run apply_line]. exact IH. Qed.
+
+  (* one declared column over the lines of an envelope: it appears at most once, and holds the rune
+     slice of the FIRST line its line_pattern matches; later matching lines do not change it *)
+  Theorem first_matching_line_wins_proof c : forall ls,
+    kids_run re_match [(c, false)] ls =
+    match first_match re_match c ls with
+    | Some (_, l) => [mk1 c l]
+    | None => []
+    end.
+  Proof.
+    induction ls as [|l ls IH]; [reflexivity|].
+    cbn [kids_run apply_line first_match].
+    destruct (col_match1 re_match c l).
+    - rewrite kids_run_done. reflexivity.
+    - cbn [app]. rewrite IH. destruct (first_match re_match c ls) as [[j l']|]; reflexivity.
+  Qed.
+End FirstWins.
